@@ -143,7 +143,7 @@ Running == ctrl.t # "done" /\ steps < MaxSteps
 -----------------------------------------------------------------------------
 Init == /\ pi \in 1..Len(Progs)
         /\ ctrl = Run(Progs[pi].defs["main_"].body)
-        /\ kont = <<[f |-> "call", fn |-> "main_", dst |-> "", env |-> <<>>, defers |-> <<>>, ln |-> 0, gen |-> 0]>>
+        /\ kont = <<[f |-> "call", fn |-> "main_", dst |-> "", decl |-> FALSE, env |-> <<>>, defers |-> <<>>, ln |-> 0, gen |-> 0]>>
         /\ env = <<>> /\ cells = <<>> /\ clos = <<>> /\ gens = <<>> /\ out = <<>> /\ steps = 0
         /\ stat = [finReg |-> 0, finRun |-> 0, defReg |-> 0, defRun |-> 0]
 
@@ -240,7 +240,14 @@ LoopStep ==
             /\ IF go THEN ctrl' = Run(s.body) /\ UNCHANGED kont
                      ELSE ctrl' = Comp(Normal(NilV)) /\ kont' = Tail(kont)
        [] s.kind = "forin" ->
-            IF f.i < Len(f.items)
+            \* DEVIATION "forin_list_shares_variable": iterating a list re-uses ONE variable for all
+            \* iterations (closures created in different iterations see the last element)
+            IF f.i < Len(f.items) /\ "forin_list_shares_variable" \in Deviations /\ f.i > 0
+            THEN /\ cells' = [cells EXCEPT ![Lookup(env, s.var)] = f.items[f.i + 1]]
+                 /\ env' = [j \in 1..(Len(f.env) + 1) |-> IF j <= Len(f.env) THEN f.env[j] ELSE <<s.var, Lookup(env, s.var)>>]
+                 /\ kont' = <<[f EXCEPT !.i = @ + 1]>> \o Tail(kont)
+                 /\ ctrl' = Run(s.body) /\ UNCHANGED out
+            ELSE IF f.i < Len(f.items)
             THEN /\ cells' = Append(cells, f.items[f.i + 1])
                  /\ env' = Append(f.env, <<s.var, Len(cells) + 1>>)
                  /\ kont' = <<[f EXCEPT !.i = @ + 1]>> \o Tail(kont)
@@ -272,15 +279,17 @@ StepTry ==
 
 (* method call `dst = f(args)` and closure call `dst = c.(args)` *)
 StepCall ==
-  /\ Running /\ ctrl.t = "run" /\ ctrl.s # <<>> /\ Head(ctrl.s).k \in {"call", "callc"}
+  /\ Running /\ ctrl.t = "run" /\ ctrl.s # <<>> /\ Head(ctrl.s).k \in {"call", "callc", "acall"}
   /\ LET s == Head(ctrl.s)
          r == EvArgs(s.args, env, cells, 1)
-         isM == s.k = "call"
+         \* "acall" is `dst = f(args).await_sync` on an async method: the awaited value or error of the
+         \* body is the value or error of the plain call (C15); scheduling is the business of spec/Async
+         isM == s.k \in {"call", "acall"}
          cl == IF isM THEN [params |-> <<>>, body |-> <<>>, env |-> <<>>, fn |-> ""] ELSE clos[cells[Lookup(env, s.c)].v]
          d == IF isM THEN Prog.defs[s.f] ELSE cl
          b == BindParams(d.params, r.vs, IF isM THEN <<>> ELSE cl.env, cells)
      IN /\ out' = out \o r.o
-        /\ kont' = <<[f |-> "call", fn |-> (IF isM THEN s.f ELSE cl.fn), dst |-> s.dst, env |-> env, defers |-> <<>>, ln |-> s.ln, gen |-> 0],
+        /\ kont' = <<[f |-> "call", fn |-> (IF isM THEN s.f ELSE cl.fn), dst |-> s.dst, decl |-> s.decl, env |-> env, defers |-> <<>>, ln |-> s.ln, gen |-> 0],
                      SeqK(Tail(ctrl.s))>> \o kont
         /\ env' = b.env /\ cells' = b.cells
         /\ ctrl' = Run(d.body)
@@ -324,6 +333,9 @@ RECURSIVE FirstCatch(_, _, _)
 FirstCatch(cs, x, i) == IF i > Len(cs) THEN 0
                         ELSE IF CatchMatches(cs[i].pat, x) THEN i ELSE FirstCatch(cs, x, i + 1)
 
+GenRetSkips == /\ "generator_completion_skips_finally" \in Deviations
+               /\ ctrl.c.c = "ret" /\ kont[CallIdx].gen # 0
+
 EnterFinally(s, fenv, pend) ==
   /\ kont' = <<[f |-> "fin", pend |-> pend, env |-> fenv]>> \o Tail(kont)
   /\ ctrl' = Run(s.fin)
@@ -340,7 +352,7 @@ UnwindTry ==
              THEN /\ cells' = Append(cells, c.v) /\ env' = Append(f.env, <<cc.pat.n, Len(cells) + 1>>)
              ELSE /\ env' = f.env /\ UNCHANGED cells
           /\ ctrl' = Run(cc.body) /\ UNCHANGED stat
-     ELSE IF s.hasfin
+     ELSE IF s.hasfin /\ ~GenRetSkips
      THEN /\ EnterFinally(s, f.env, c) /\ env' = f.env /\ UNCHANGED cells
      ELSE /\ kont' = Tail(kont) /\ env' = f.env /\ UNCHANGED <<ctrl, cells, stat>>
   /\ Tick /\ UNCHANGED <<pi, clos, gens, out>>
@@ -351,7 +363,7 @@ UnwindCatch ==
          \* DEVIATION "catch_abrupt_skips_finally": the compiler protects only the body of a
          \* do-expression with its finally entry, so a handler that exits abruptly skips it
          skip == "catch_abrupt_skips_finally" \in Deviations /\ c.c # "normal" IN
-     IF s.hasfin /\ ~skip
+     IF s.hasfin /\ ~skip /\ ~GenRetSkips
      THEN /\ EnterFinally(s, f.env, c) /\ env' = f.env
      ELSE /\ kont' = Tail(kont) /\ env' = f.env /\ UNCHANGED <<ctrl, stat>>
   /\ Tick /\ UNCHANGED <<pi, cells, clos, gens, out>>
@@ -366,24 +378,40 @@ UnwindFin ==
 
 (* a completion reaches the call frame: run the registered defers (LIFO),  *)
 (* one per step, then deliver the result to the caller                     *)
+\* DEVIATION "generator_completion_skips_finally": the final value of a generator body (its last
+\* expression or an explicit `return`) is handed out by a YIELD, not by a RETURN, so neither the
+\* enclosing `finally` blocks nor the `finally` that runs the registered defers are entered (they
+\* are when the body throws)
+SkipGenDefers == /\ "generator_completion_skips_finally" \in Deviations
+                 /\ Top.gen # 0 /\ ctrl.c.c \in {"normal", "ret"}
+
 RunDefer ==
-  /\ AtComp("call") /\ Top.defers # <<>>
+  /\ AtComp("call") /\ Top.defers # <<>> /\ ~SkipGenDefers
   /\ LET d == Head(Top.defers) r == Ev(d.e, d.env, cells) IN
      /\ out' = out \o r.o
      /\ kont' = <<[Top EXCEPT !.defers = Tail(@)]>> \o Tail(kont)
   /\ stat' = [stat EXCEPT !.defRun = @ + 1]
   /\ Tick /\ UNCHANGED <<pi, ctrl, env, cells, clos, gens>>
 
+(* the caller receives the result in dst: an existing variable, or (decl) a new one.  rest is  *)
+(* the continuation below the call frame; its head is the seq frame of the call statement,    *)
+(* which must keep a variable the call declared                                               *)
+Deliver(f, x, rest) ==
+  /\ IF f.dst = "" THEN env' = f.env /\ UNCHANGED cells
+     ELSE IF f.decl THEN /\ cells' = Append(cells, x) /\ env' = Append(f.env, <<f.dst, Len(cells) + 1>>)
+     ELSE /\ cells' = [cells EXCEPT ![Lookup(f.env, f.dst)] = x] /\ env' = f.env
+  /\ kont' = IF rest # <<>> /\ Head(rest).f = "seq"
+             THEN <<[Head(rest) EXCEPT !.env = env']>> \o Tail(rest) ELSE rest
+
 (* result of a function body: explicit return value, or the value of the   *)
 (* last statement (nil for statements)                                     *)
 UnwindCall ==
   /\ AtComp("call") /\ Top.defers = <<>> /\ Len(kont) > 1 /\ Top.gen = 0
   /\ LET c == ctrl.c f == Top IN
-     /\ kont' = Tail(kont) /\ env' = f.env
      /\ IF c.c \in {"normal", "ret"}
         THEN /\ ctrl' = Comp(Normal(NilV))
-             /\ IF f.dst # "" THEN cells' = [cells EXCEPT ![Lookup(f.env, f.dst)] = c.v] ELSE UNCHANGED cells
-        ELSE /\ UNCHANGED <<ctrl, cells>>     \* throw propagates (break/continue cannot cross a call)
+             /\ Deliver(f, c.v, Tail(kont))
+        ELSE /\ kont' = Tail(kont) /\ env' = f.env /\ UNCHANGED <<ctrl, cells>>     \* throw propagates (break/continue cannot cross a call)
   /\ Tick /\ UNCHANGED <<pi, clos, gens, out, stat>>
 
 -----------------------------------------------------------------------------
@@ -399,15 +427,16 @@ StepGenCreate ==
      /\ out' = out \o r.o
      /\ gens' = Append(gens, [st |-> "susp", ctrl |-> Run(d.body), env |-> b.env, fn |-> s.f,
                               kont |-> <<>>, defers |-> <<>>])
-     /\ cells' = [b.cells EXCEPT ![Lookup(env, s.dst)] = GenV(Len(gens) + 1)]
+     /\ cells' = Append(b.cells, GenV(Len(gens) + 1))
+     /\ env' = Append(env, <<s.dst, Len(b.cells) + 1>>)
      /\ ctrl' = Run(Tail(ctrl.s))
-  /\ Tick /\ UNCHANGED <<pi, kont, env, clos, stat>>
+  /\ Tick /\ UNCHANGED <<pi, kont, clos, stat>>
 
 StepGenNext ==
   /\ Running /\ ctrl.t = "run" /\ ctrl.s # <<>> /\ Head(ctrl.s).k = "next"
   /\ LET s == Head(ctrl.s) gi == cells[Lookup(env, s.g)].v g == gens[gi] IN
      IF g.st = "susp"
-     THEN /\ kont' = g.kont \o <<[f |-> "call", fn |-> g.fn, dst |-> s.dst, env |-> env, defers |-> g.defers, ln |-> s.ln, gen |-> gi],
+     THEN /\ kont' = g.kont \o <<[f |-> "call", fn |-> g.fn, dst |-> s.dst, decl |-> s.decl, env |-> env, defers |-> g.defers, ln |-> s.ln, gen |-> gi],
                                  SeqK(Tail(ctrl.s))>> \o kont
           /\ ctrl' = g.ctrl /\ env' = g.env
           /\ gens' = [gens EXCEPT ![gi].st = "run"]
@@ -417,6 +446,14 @@ StepGenNext ==
           /\ UNCHANGED <<env, gens>>
   /\ Tick /\ UNCHANGED <<pi, cells, clos, out, stat>>
 
+(* `for v in f(args)` over a generator method is sugar: the program carries its expansion      *)
+(* (create the generator, loop: next into v, stop_iteration ends the loop, body), which is what *)
+(* the machine executes, while the emitter prints the sugared form                              *)
+StepForGen ==
+  /\ Running /\ ctrl.t = "run" /\ ctrl.s # <<>> /\ Head(ctrl.s).k = "forgen"
+  /\ ctrl' = Run(Head(ctrl.s).desugared \o Tail(ctrl.s))
+  /\ Tick /\ UNCHANGED <<pi, kont, env, cells, clos, gens, out, stat>>
+
 (* yield: save the frames above the generator's call frame, deliver value *)
 StepYield ==
   /\ Running /\ ctrl.t = "run" /\ ctrl.s # <<>> /\ Head(ctrl.s).k = "yield"
@@ -425,23 +462,20 @@ StepYield ==
      /\ out' = out \o r.o
      /\ gens' = [gens EXCEPT ![f.gen] = [@ EXCEPT !.st = "susp", !.ctrl = Run(Tail(ctrl.s)), !.env = env,
                                                   !.kont = SubSeq(kont, 1, ci - 1), !.defers = f.defers]]
-     /\ kont' = SubSeq(kont, ci + 1, Len(kont))
-     /\ env' = f.env
-     /\ cells' = IF f.dst # "" THEN [cells EXCEPT ![Lookup(f.env, f.dst)] = r.v] ELSE cells
+     /\ Deliver(f, r.v, SubSeq(kont, ci + 1, Len(kont)))
      /\ ctrl' = Comp(Normal(NilV))
   /\ Tick /\ UNCHANGED <<pi, clos, stat>>
 
 (* the generator body finished: its result is the last value; an error     *)
 (* propagates to the caller of next; either way the generator is done      *)
 UnwindGenCall ==
-  /\ AtComp("call") /\ Top.defers = <<>> /\ Top.gen # 0
+  /\ AtComp("call") /\ (Top.defers = <<>> \/ SkipGenDefers) /\ Top.gen # 0
   /\ LET c == ctrl.c f == Top IN
-     /\ kont' = Tail(kont) /\ env' = f.env
      /\ gens' = [gens EXCEPT ![f.gen].st = "done"]
      /\ IF c.c \in {"normal", "ret"}
         THEN /\ ctrl' = Comp(Normal(NilV))
-             /\ IF f.dst # "" THEN cells' = [cells EXCEPT ![Lookup(f.env, f.dst)] = c.v] ELSE UNCHANGED cells
-        ELSE /\ UNCHANGED <<ctrl, cells>>
+             /\ Deliver(f, c.v, Tail(kont))
+        ELSE /\ kont' = Tail(kont) /\ env' = f.env /\ UNCHANGED <<ctrl, cells>>
   /\ Tick /\ UNCHANGED <<pi, clos, out, stat>>
 
 -----------------------------------------------------------------------------
@@ -475,7 +509,7 @@ Next == \/ StepSimple \/ StepDefer \/ StepLam \/ StepJump \/ StepIf \/ StepLoop 
         \/ StepTry \/ StepCall \/ BlockEnd
         \/ UnwindSeq \/ UnwindLoop \/ UnwindTry \/ UnwindCatch \/ UnwindFin
         \/ RunDefer \/ UnwindCall
-        \/ StepGenCreate \/ StepGenNext \/ StepYield \/ UnwindGenCall
+        \/ StepGenCreate \/ StepGenNext \/ StepForGen \/ StepYield \/ UnwindGenCall
         \/ Finish \/ GiveUp \/ Done
 
 Spec == Init /\ [][Next]_vars
